@@ -199,7 +199,7 @@ def _hmm_rules(rng, spec):
     has unequal bins but equally probable patches, a third is arbitrary"""
     nb = spec["bins"]
     rules = [r for r in spec["rules"] if r["par_name"] not in ("bprobs", "bin_switch")]
-    mode = rng.choice(["default", "equal-patches", "random"])
+    mode = spec.get("hmm_force_mode") or rng.choice(["default", "equal-patches", "random"])
     if mode == "equal-patches":
         half = nb // 2
         w0 = [rng.uniform(0.3, 1.0) for _ in range(half)]
@@ -229,9 +229,10 @@ def _pp_class(bprobs):
 
 
 def _classify(ctx, lf, got):
-    """narrow class of an HMM failure: 'switch-matrix-from-the-left' when the reported lnL is EXACTLY what the loop
+    """narrow class of an HMM failure: 'switch-matrix-from-the-left' when the reported lnL is EXACTLY what the pre-fix loop
     `state_probs = dot(switch_probs, state_probs) * plhs[site]` gives on the implementation's own per-bin likelihoods
-    (model `siteHmm`) while the loop with the matrix acting from the right gives something else; 'other' otherwise"""
+    (model `siteHmmOld`) while the loop as it is now (`siteHmm`, matrix acting from the right) gives something else;
+    'other' otherwise"""
     try:
         bprobs = [float(x) for x in lf.get_param_value("bprobs")]
         switch = float(lf.get_param_value("bin_switch"))
@@ -239,11 +240,11 @@ def _classify(ctx, lf, got):
         real_lhs = [[float(x) for x in lf.get_param_value("lh", bin=b)] for b in lf.bin_names]
         (res,) = ctx.driver.batch([("hmm", dict(bprobs=[rat(x) for x in bprobs], switch=rat(switch),
                                                 lhs=[[rat(x) for x in row[: max(index) + 1]] for row in real_lhs], index=index, brute=False))])
-        code, fixed = U.log_fraction(unrat(res["code"])), U.log_fraction(unrat(res["fixed"]))
+        old, code = U.log_fraction(unrat(res["old"])), U.log_fraction(unrat(res["code"]))
     except Exception:
         return "other"
-    d_code, d_fixed = abs(got - code), abs(got - fixed)
-    if d_code <= REL_LNL * abs(code) + 1e-12 and d_fixed > 10 * d_code + 1e-11 * abs(fixed):
+    d_old, d_code = abs(got - old), abs(got - code)
+    if d_old <= REL_LNL * abs(old) + 1e-12 and d_code > 10 * d_old + 1e-11 * abs(code):
         return "switch-matrix-from-the-left"
     return "other"
 
@@ -285,16 +286,24 @@ def check_hmm(ctx, spec, rng, out, kind):
             add_failure(out, "corr", "driver error (hmm)", _slim(spec), "reply", res["error"], confirmed=False)
             return
         code = U.log_fraction(unrat(res["code"]))
-        fixed = U.log_fraction(unrat(res["fixed"]))
+        old = U.log_fraction(unrat(res["old"]))
+        differ = abs(code - old) > REL_LNL * abs(code)
         if abs(got - code) <= REL_LNL * abs(code) + 1e-12:
-            bump(out, "hmm_loop_orientation", "as-written: dot(switch_probs, state_probs)" if abs(code - fixed) > REL_LNL * abs(code) else "either")
-        elif abs(got - fixed) <= REL_LNL * abs(fixed) + 1e-12:
-            # the implementation behaves like the repaired loop (matrix acting from the right, theorem
-            # hmm_transposed_forward_eq_definition): not a model mismatch, the spec stream decides
-            bump(out, "hmm_loop_orientation", "repaired: dot(state_probs, switch_probs)")
+            bump(out, "hmm_loop_orientation", "as-written: dot(state_probs, switch_probs)" if differ else "either (symmetric matrix)")
+            if differ:
+                out["nontrivial"].add((spec["model"], spec["seed"], "hmm-orientation"))
+        elif abs(got - old) <= REL_LNL * abs(old) + 1e-12:
+            # STRICT since fix 6668db777: the model mirrors dot(state_probs, switch_probs); an implementation that behaves like
+            # the pre-fix loop is a mismatch AND (theorem hmm_switch_eq_definition / hmm_old_orientation_counter) a violation
+            # of the definition - reported with this concrete likelihood function as the failing input
+            bump(out, "hmm_loop_orientation", "REGRESSED: dot(switch_probs, state_probs)")
+            add_failure(out, "corr", "HMM lnL equals the PRE-FIX loop (switch matrix multiplied from the left), not the model siteHmm",
+                        _slim(spec), code, got, confirmed=False)
+            add_failure(out, "spec", "site-class HMM lnL is the value of the pre-fix loop dot(switch_probs, state_probs), which is not the sum over "
+                        "all class assignments (the loop as modelled is proved equal to it: hmm_switch_eq_definition)",
+                        dict(_slim(spec), check="hmm"), code, got, sig=f"hmm:switch-matrix-from-the-left:patch-probs-{cls}")
         else:
-            add_failure(out, "corr", "HMM lnL differs from the model siteHmm (in either orientation of the switch matrix)", _slim(spec),
-                        dict(as_written=code, transposed=fixed), got, confirmed=False)
+            add_failure(out, "corr", "HMM lnL differs from the model siteHmm", _slim(spec), dict(as_written=code, pre_fix=old), got, confirmed=False)
         M = numpy.array(bdist.transition_matrix.Matrix, dtype=float)
         mine = numpy.array([[float(unrat(x)) for x in row] for row in res["matrix"]])
         st = [float(x) for x in bdist.transition_matrix.StationaryProbs]
@@ -318,13 +327,13 @@ def check_hmm(ctx, spec, rng, out, kind):
     want_f, npaths = hmm_definition(bprobs, switch, cols)
     want = U.log_fraction(want_f)
     bump(out, "hmm_bin_paths_log2", int(math.log2(max(npaths, 1))))
-    # the Lean spec over the patch paths (and the repaired loop) on the same exact inputs
+    # the Lean spec over the patch paths (and the loop as modelled) on the same exact inputs
     (r2,) = ctx.driver.batch([("hmm", dict(bprobs=[rat(x) for x in bprobs], switch=rat(switch),
                                             lhs=[[rat(x) for x in row] for row in per_bin], index=res["index"], brute=n <= 12))])
     if "error" in r2:
         add_failure(out, "corr", "driver error (hmm)", _slim(spec), "reply", r2["error"], confirmed=False)
         return
-    for key in ("spec", "fixed"):
+    for key in ("spec", "code"):
         if r2[key] is None:
             continue
         v = unrat(r2[key])
@@ -376,6 +385,9 @@ def correspondence(ctx, out, rng):
     nuc = _nuc_models()
     for i in range(ctx.budget(8, 200)):
         spec = rand_hmm_problem(rng, nuc[(i + ctx.seed) % len(nuc)])
+        if i < 3:
+            # every run contains problems on which the two orientations of the loop give different values
+            spec["hmm_force_mode"] = "random"
         check_hmm(ctx, spec, rng, out, "corr")
 
 
